@@ -47,8 +47,14 @@ type step struct {
 	Panic    string     `json:"panic,omitempty"`
 
 	Race *raceInfo `json:"race,omitempty"`
+	Call int64     `json:"call_tick,omitempty"`
+	Ack  int64     `json:"ack_tick,omitempty"`
 
 	pdRegionCount map[uint64]int
+	edges         int  // operations overlapping the two observations being judged (0 = 1)
+	skipS6        bool // failed write inside a race in which another worker may change the same record
+	noDirty       bool // the failed write cannot leave stored != served (heartbeat flush)
+	s6Base        snap // observation before the race, for the "served unchanged" clause
 }
 
 func sortedIDs(s snap) []uint64 {
@@ -450,6 +456,13 @@ func (e *env) exec(st *step) {
 		err = e.rc.RemoveTombStoneRecords()
 	case "reload":
 		err = e.reload()
+	case "reloadlc":
+		// the same server is re-elected: the cluster is stopped and started again on the cache it has
+		e.r.Count("reloads_leader_change_style", 1)
+		e.rc.Stop()
+		if err = e.rc.Start(e.s); err != nil || !e.rc.IsRunning() {
+			e.lost = fmt.Sprintf("reloadlc: RaftCluster.Start failed: %v", err)
+		}
 	case "storehb":
 		var resp *pdpb.StoreHeartbeatResponse
 		resp, err = e.s.StoreHeartbeat(e.ctx, &pdpb.StoreHeartbeatRequest{Header: e.m.Header(),
